@@ -111,6 +111,8 @@ class ObsSession:
             d = dict(self.wdesc)
             state = d.get("state")
             d["state"] = None
+            if key[0] == "stacked":
+                d.pop("late", None)     # the stacked observer declares counts up to the number of agents it was BUILT with
             w = gridw.RealWorld(d)
             ob = _CTORS[key](dict(grid=w.grid, agents=w.agents))
             w.finish()
